@@ -537,7 +537,7 @@ static void check_outputs(Run &run, std::string const &scratch, int shard, std::
   {
     vproxy *px = new vproxy(2 * (int) spec.d.size());
     for (int a = 0; a < px->natoms; a++) px->x[a] = cvm::rvector(0, 0, 0);
-    if (px->config(conf) != 0) { fprintf(stderr, "HARNESS-ERROR: configuration rejected on reload\n"); exit(2); }
+    if (px->config(conf) != 0) { fprintf(stderr, "HARNESS-ERROR: configuration rejected on reload\n"); exit(3); }
     px->set_input_prefix(prefix);
     // the restarted run begins with the coordinates of the stop step (first call: not a new sample unless
     // stepZeroData), then moves to the middle of the first bin of every dimension
@@ -861,7 +861,7 @@ static void dihedral_part(Result &r, bool thorough)
       double lb = variant == 1 ? 0.0 : -180.0, ub = variant == 1 ? 360.0 : 180.0;
       if (variant == 2) { conf += " grid {\n lowerBoundary 0\n upperBoundary 180\n width " + num(w) + "\n }\n"; lb = 0; ub = 180; }
       conf += "}\n";
-      if (px->config(conf) != 0) { fprintf(stderr, "HARNESS-ERROR: dihedral configuration rejected: %s\n%s", px->errtxt.c_str(), conf.c_str()); exit(2); }
+      if (px->config(conf) != 0) { fprintf(stderr, "HARNESS-ERROR: dihedral configuration rejected: %s\n%s", px->errtxt.c_str(), conf.c_str()); exit(3); }
       colvarbias_histogram *h = dynamic_cast<colvarbias_histogram *>(px->bias("h"));
       int const n = (int) std::floor((ub - lb) / w + 0.5);
       bool const per_expected = (variant != 2);
@@ -943,7 +943,7 @@ static void decimal_part(Result &r, bool thorough)
         conf += buf;
       }
       conf += "}\n";
-      if (px->config(conf) != 0) { fprintf(stderr, "HARNESS-ERROR: decimal configuration rejected: %s\n%s", px->errtxt.c_str(), conf.c_str()); exit(2); }
+      if (px->config(conf) != 0) { fprintf(stderr, "HARNESS-ERROR: decimal configuration rejected: %s\n%s", px->errtxt.c_str(), conf.c_str()); exit(3); }
       colvarbias_histogram *h = dynamic_cast<colvarbias_histogram *>(px->bias("h"));
       if (!h || h->grid->nx.size() != 1 || h->grid->nx[0] != g.n || h->grid->lower_boundaries[0].real_value != g.lb || h->grid->widths[0] != g.w) {
         r.violation("C15:hist:decimal-parameters:grid-shape", "{\"unit\":\"decimal\",\"config\":\"" + jesc(conf) + "\",\"n_expected\":" + std::to_string(g.n) + ",\"n\":" +
